@@ -486,6 +486,27 @@ fn one_record(rec: &Value, props: &BTreeSet<String>, long: &mut MoveGenerator, a
         }
     }
 
+    // ---- C19 on the moves as the engine hands them out (check / mate annotation computed): same text
+    if has("C19") && omoves.iter().all(|o| o.uci.is_some()) {
+        let r = guarded(|| {
+            let mut board = pos.setup();
+            let mut gen = MoveGenerator::with_cache_capacity(FRESH_CAP);
+            let list = gen.generate_moves_and_lazily_update_chess_move_effects(&mut board, side);
+            list.iter().map(|m| (Mv::of(m), m.to_uci())).collect::<Vec<_>>()
+        });
+        if let Ok(list) = r {
+            for (mv, text) in list {
+                acc.eval("C19", 1);
+                if let Some(o) = omoves.iter().find(|o| o.m == mv) {
+                    let want = o.uci.as_ref().unwrap();
+                    if &text != want {
+                        acc.bad("C19", "UCI text of an annotated move differs", &pos, json!({"move": mv.to_json(), "got": text, "want": want}));
+                    }
+                }
+            }
+        }
+    }
+
     // ---- attack maps (C11 on real positions): compare on squares not occupied by the attacker
     if has("C11") && rec.get("aw").is_some() {
         for (white, field) in [(true, "aw"), (false, "ab")] {
